@@ -101,12 +101,12 @@ def iterfit(xdata, ydata, invvar=None, upper=5, lower=5, x2=None, maxiter=10, gr
         x2work = None
     iiter = 0
     error = 0
-    qdone = -1
+    qdone = False
     __pv.inv_check(0, 'init', locals())
     goodbk, iiter, i, ct, ileft, error, yfit, inmask, maskwork, qdone = __pv.havoc(0, locals(), ['goodbk', 'iiter', 'i', 'ct', 'ileft', 'error', 'yfit', 'inmask', 'maskwork', 'qdone'], ['sset.coeff', 'sset.mask', 'outmask'])
     if __pv.choice(0):
         __pv.assume_inv(0, locals())
-        if not ((error != 0 or qdone == -1) and iiter <= maxiter):
+        if not ((error != 0 or not qdone) and iiter <= maxiter):
             __pv.infeasible()
         __brk0 = False
         for __once in (0,):
@@ -143,7 +143,7 @@ def iterfit(xdata, ydata, invvar=None, upper=5, lower=5, x2=None, maxiter=10, gr
             __pv.stop()
     else:
         __pv.assume_inv(0, locals())
-        if (error != 0 or qdone == -1) and iiter <= maxiter:
+        if (error != 0 or not qdone) and iiter <= maxiter:
             __pv.infeasible()
     outmask[xsort] = maskwork
     temp = yfit
